@@ -14,7 +14,7 @@ def run(tier, seed):
     common.PID_ALIAS.update({"SQLM": "C17", "KVW": "C17", "KVM": "C17"})
     from .. import extra
     return common.drop_foreign(sqlm.suites_c17(tier, seed) + kvb.suites_c17(tier, seed)
-                               + [extra.suite_removed_unreachable_after_read(tier, seed, ("gc",)), extra.suite_gc_lifecycle(tier, seed)], "C17")
+                               + [extra.suite_removed_unreachable_after_read(tier, seed, ("gc",)), extra.suite_gc_lifecycle(tier, seed), extra.suite_two_workers(tier, seed)], "C17")
 
 
 def replay(payload):
